@@ -662,3 +662,31 @@ def replay(ctx, verdict):
 
 def search(ctx, verdict, problems):
     return winlib.search(ctx, verdict, problems)
+
+
+# ---- one stream per local sender ADDRESS in client.RouteUDP (harness/client/c14_flows_test.go)
+def udp_flows(ctx, verdict):
+    import vlib
+    inp, out = '%s/flows.in' % ctx.work, '%s/flows.out' % ctx.work
+    open(inp, 'w').write('fl0 FLOWS\n')
+    rc, log, dt = vlib.go_test(ctx, 'client', 'TestVerifC14Flows', files=['c14_flows_test.go'], env=dict(VERIF_IN=inp, VERIF_OUT=out), timeout=300)
+    got = vlib.read_lines_by_id(out)
+    if rc != 0 or 'fl0' not in got:
+        return [('Go driver TestVerifC14Flows failed rc=%d' % rc, log[-3000:])]
+    d = dict(x.split('=', 1) for x in got['fl0'].split())
+    for k, what in (('sameport', 'two local senders with the same UDP port on different loopback addresses'), ('sameip', 'two local senders on one address with different ports')):
+        if d[k] not in ('ok', 'skip'):
+            verdict.oracle_failure('udp-flows-mixed', 'C14 oracle (client.RouteUDP, %s): %s - every sender address is a flow of its own: its datagrams travel on its own stream and the replies on that stream reach it and nobody else' % (what, d[k]),
+                                   dict(kind='udp-flows', case='fl0 FLOWS', observed=got['fl0'], how='go test -run TestVerifC14Flows with harness/client/c14_flows_test.go'))
+            break
+    verdict.cov['udp_flow_cases'] = got['fl0']
+    return []
+
+
+_corr_before_flows = correspondence
+
+
+def correspondence(ctx, verdict, pr):
+    res = _corr_before_flows(ctx, verdict, pr)
+    res['broken'] += udp_flows(ctx, verdict)
+    return res
